@@ -147,7 +147,8 @@ def build(pid, tier="quick"):
             with open(audit, "w") as fh:
                 for m in mods:
                     fh.write(f"import {m}\n")
-                fh.write("open GBS\n")
+                fh.write("import GBS.Model.Parse\n")
+                fh.write("open GBS GBS.P GBS.Py GBS.Num\n")
                 for t in st.theorems:
                     fh.write(f"#print axioms {t}\n")
             rc2, out2 = _run(["lake", "env", "lean", audit], cwd=LEAN)
